@@ -12,7 +12,8 @@ git -C /repo worktree add --detach "$S/repo" HEAD >/dev/null 2>&1 || exit 2
 # carry over uncommitted changes of /repo's working tree (normally none)
 git -C /repo diff HEAD | (cd "$S/repo" && git apply --allow-empty 2>/dev/null)
 (cd "$S/repo" && git apply "$PATCH") || { echo "patch does not apply"; exit 2; }
-rsync -a --exclude .git --exclude .work --exclude replays /verif/ "$S/verif/"
+# snapshot under the build lock so a half-finished lake build is never copied
+flock /verif/lean/.build.lock rsync -a --exclude .git --exclude .work --exclude replays /verif/ "$S/verif/"
 cd "$S/verif" || exit 2
 AFKAK_REPO="$S/repo" ./check "$ID" --tier "$TIER"
 rc=$?
